@@ -53,16 +53,16 @@ type c20Get struct {
 }
 
 type c20Obs struct {
-	Probes   []c20Probe             `json:"probes"`
-	Gets     []c20Get               `json:"gets"`
-	Removed  map[string]c20Mark     `json:"removed"`
-	Readded  map[string]c20Mark     `json:"readded"`
-	Final    map[string]c20Get      `json:"final"`
-	Posted   map[string]*h1.PT      `json:"posted"`
-	Deadlock bool                   `json:"deadlock,omitempty"`
-	Horizon  bool                   `json:"horizon,omitempty"`
-	Panic    string                 `json:"panic,omitempty"`
-	Trace    string                 `json:"-"`
+	Probes   []c20Probe         `json:"probes"`
+	Gets     []c20Get           `json:"gets"`
+	Removed  map[string]c20Mark `json:"removed"`
+	Readded  map[string]c20Mark `json:"readded"`
+	Final    map[string]c20Get  `json:"final"`
+	Posted   map[string]*h1.PT  `json:"posted"`
+	Deadlock bool               `json:"deadlock,omitempty"`
+	Horizon  bool               `json:"horizon,omitempty"`
+	Panic    string             `json:"panic,omitempty"`
+	Trace    string             `json:"-"`
 }
 
 type c20Mark struct {
